@@ -394,7 +394,8 @@ bool LineParser::parse_git_extended_info(Patch& patch, int strip)
         // NOTE: we do 'strip - 1' here as the extended headers do not come with a leading
         // "a/" or "b/" prefix - strip the filename as if this part is already stripped.
         // Not stripping at all keeps the name as it is (a strip of -1 would mean its base name).
-        const int strip_of_name = strip == 0 ? 0 : strip - 1;
+        // NOTE: any negative strip means the same (the base name), there is nothing to subtract from those.
+        const int strip_of_name = strip <= 0 ? strip : strip - 1;
         if (peek() == '"') {
             output = parse_quoted_string();
             output = strip_path(output, strip_of_name);
